@@ -28,6 +28,8 @@ type Knobs struct {
 	MTUs           []int
 	MaxPayload     int
 	TCPAllocPct    int
+	// TCPRelayEvery: every n-th case runs an RFC 6062 history (0 = never).
+	TCPRelayEvery int
 }
 
 var defaultTimeouts = [][3]time.Duration{
@@ -673,6 +675,12 @@ func histProp(cases map[string]int, k Knobs) PropDef {
 		Bubble: true,
 		Cases:  func(tier string) int { return cases[tier] },
 		Run: func(t *testing.T, rng *rand.Rand, rec *sim.Rec, tier string, caseNo int) {
+			if k.TCPRelayEvery > 0 && caseNo%k.TCPRelayEvery == k.TCPRelayEvery-1 {
+				// the statement also covers TCP allocations (connect targets / inbound connections)
+				runC16(t, rng, rec, tier, caseNo)
+
+				return
+			}
 			newHist(t, rng, rec, k).run()
 		},
 	}
@@ -681,11 +689,11 @@ func histProp(cases map[string]int, k Knobs) PropDef {
 func init() {
 	register("C01", histProp(map[string]int{"quick": 1500, "thorough": 40000}, Knobs{
 		Clients: [2]int{1, 4}, TCPClients: [2]int{0, 1}, Peers: [2]int{2, 6}, Steps: [2]int{15, 40}, V6: 35, Deny: 60,
-		TimeoutSets: defaultTimeouts, Lifetimes: defaultLifetimes, W: weights(map[string]int{"data": 10}), TCPAllocPct: 5,
+		TimeoutSets: defaultTimeouts, Lifetimes: defaultLifetimes, W: weights(map[string]int{"data": 10}), TCPAllocPct: 5, TCPRelayEvery: 12,
 	}))
 	register("C02", histProp(map[string]int{"quick": 1500, "thorough": 40000}, Knobs{
 		Clients: [2]int{1, 4}, TCPClients: [2]int{0, 1}, Peers: [2]int{3, 6}, Steps: [2]int{15, 40}, V6: 35, Deny: 30,
-		TimeoutSets: defaultTimeouts, Lifetimes: defaultLifetimes, W: weights(map[string]int{"data": 10, "probe": 6}), TCPAllocPct: 5,
+		TimeoutSets: defaultTimeouts, Lifetimes: defaultLifetimes, W: weights(map[string]int{"data": 10, "probe": 6}), TCPAllocPct: 5, TCPRelayEvery: 10,
 	}))
 	register("C06", histProp(map[string]int{"quick": 1200, "thorough": 20000}, Knobs{
 		Clients: [2]int{1, 3}, TCPClients: [2]int{0, 1}, Peers: [2]int{2, 3}, Steps: [2]int{12, 30}, V6: 15,
